@@ -453,6 +453,10 @@ pub fn record_mecab_lines(a: &HashMap<String, String>) -> i32 {
         if rng.chance(1, 3) && !d.lex.is_empty() {
             d.lex[0].s = "EOS".chars().map(|c| c as u32).collect(); // a word whose surface is EOS
         }
+        if rng.chance(1, 3) {
+            let k = rng.below(d.lex.len());
+            d.lex[k].f = String::new(); // a word whose feature column is empty: `surface<TAB>` in the output
+        }
         let dict = match d.build() {
             Ok(x) => x,
             Err(_) => continue,
@@ -486,7 +490,9 @@ pub fn record_corpus(a: &HashMap<String, String>) -> i32 {
     let n: usize = a.get("n").and_then(|s| s.parse().ok()).unwrap_or(200);
     let mut rng = Rng::new(seed ^ 0xC119);
     let pool: Vec<Vec<&str>> = vec![vec!["東京", "名詞,地名"], vec!["a b", "x"], vec!["", "E"], vec!["EOS", "f"], vec!["EOS"], vec!["EOS"],
-                                    vec!["a"], vec!["a", "N", "z"], vec![""], vec!["に", "助詞,\"q,r\""], vec![" ", "sp"], vec!["EOS "]];
+                                    vec!["a"], vec!["a", "N", "z"], vec![""], vec!["に", "助詞,\"q,r\""], vec![" ", "sp"], vec!["EOS "],
+                                    // a token whose feature is the empty string (`surface<TAB>`): the tab is part of the line
+                                    vec!["a", ""], vec!["東京", ""], vec!["EOS", ""]];
     let mut f = open(a);
     for i in 0..n {
         let len = rng.below(10);
